@@ -590,14 +590,10 @@ func c15r1(c *core.Ctx) {
 	for _, k := range sortedKeys(cat.accs) {
 		x := cat.accs[k]
 		key := "usable:accessory.New" + k
-		switch {
-		case len(x.NilUse) > 0:
-			c.Bad(key, x.Pos, "nil pointer use: %s", strings.Join(x.NilUse, "; "))
-		case len(x.Problems) > 0:
-			c.Undecided(key, x.Pos, "unknown statement forms: %s", strings.Join(x.Problems, "; "))
-		default:
-			c.Check(x.CatValue >= 0, key, x.Pos, "Accessory assigned from New(info, category); services constructed before use", "the accessory is not built with a category constant")
-		}
+		// the hand-written accessory constructors come in any shape (statement by statement, locals first and one composite literal at
+		// the end, loops over the services, helpers): decided on the SSA form, not by the statement evaluator of the generated files
+		_ = x
+		accessoryCtorSSA(c, key, k)
 	}
 	// helpers pass their constants through unchanged
 	passes := func(rel, fn string, param int, typ, field string) {
@@ -694,7 +690,7 @@ func c15r1(c *core.Ctx) {
 				}
 				if cn(g) == "UpdateValue" {
 					a := core.CallOf(i).Args[1]
-					if mi, isMI := a.(*ssa.MakeInterface); isMI && mi.X == ssa.Value(sv.Params[1]) {
+					if mi, isMI := a.(*ssa.MakeInterface); isMI && (mi.X == ssa.Value(sv.Params[1]) || unchangedValue(mi.X, sv.Params[1], 0)) {
 						okv = true
 					}
 				}
@@ -1033,6 +1029,12 @@ func c15r5(c *core.Ctx) {
 	}
 	for _, k := range sortedKeys(cat.accs) {
 		a := cat.accs[k]
+		// the category handed to accessory.New is one the metadata knows (SSA form: any shape of constructor)
+		if v, ok := accessoryCategorySSA(p, k); ok {
+			_, known := cats[v]
+			c.Check(known, "accessory:New"+k, a.Pos, fmt.Sprintf("category %d (%s); services: see service-added", v, cats[v]), fmt.Sprintf("category %d unknown to the metadata", v))
+			continue
+		}
 		if len(a.Problems) > 0 || len(a.NilUse) > 0 {
 			continue
 		}
@@ -1064,6 +1066,108 @@ func c15r5(c *core.Ctx) {
 		sort.Strings(missing)
 		c.Check(len(missing) == 0, "categories", token.NoPos, fmt.Sprintf("all %d metadata categories have a constant", len(cats)), "metadata categories without constant: "+strings.Join(missing, ", "))
 	}
+}
+
+// accessoryCategorySSA: the constant category the constructor New<name> hands to accessory.New (through whatever locals).
+func accessoryCategorySSA(p *core.Program, name string) (int64, bool) {
+	f := p.Func("accessory", "New"+name)
+	nw := p.Func("accessory", "New")
+	if f == nil || nw == nil {
+		return 0, false
+	}
+	var v int64
+	found := false
+	var walk func(g *ssa.Function, depth int)
+	walk = func(g *ssa.Function, depth int) {
+		if g == nil || g.Blocks == nil || depth > 2 {
+			return
+		}
+		core.Instrs(g, func(i ssa.Instruction) {
+			h := core.Callee(i)
+			if h == nil {
+				return
+			}
+			if h == nw {
+				if os.Getenv("HCSA_DEBUG") != "" {
+					fmt.Fprintf(os.Stderr, "accessoryCategorySSA %s: call %v\n", name, i)
+				}
+				for _, a := range core.CallOf(i).Args {
+					if k, isK := core.ConstInt(a); isK && core.TypeIs(a.Type(), mod+"/accessory.AccessoryType") {
+						v, found = k, true
+					}
+				}
+				return
+			}
+			if core.InModule(h) && h.Pkg == g.Pkg {
+				walk(h, depth+1)
+			}
+		})
+	}
+	walk(f, 0)
+	return v, found
+}
+
+// accessoryCtorSSA: "usable object" for a hand-written accessory constructor in any shape: no pointer field of a struct the function
+// builds is read before it was assigned (the embedded *Accessory, the service pointers: a read through a nil one panics on every
+// call), and the accessory is made by accessory.New with a category constant.
+func accessoryCtorSSA(c *core.Ctx, key, name string) {
+	p := c.P
+	f := p.Func("accessory", "New"+name)
+	if f == nil {
+		c.Undecided(key, token.NoPos, "constructor not found")
+		return
+	}
+	var early ssa.Instruction
+	early = nil
+	var what string
+	core.Instrs(f, func(i ssa.Instruction) {
+		u, ok := i.(*ssa.UnOp)
+		if !ok || u.Op != token.MUL {
+			return
+		}
+		fa, ok := u.X.(*ssa.FieldAddr)
+		if !ok {
+			return
+		}
+		a, ok := fa.X.(*ssa.Alloc)
+		if !ok {
+			return
+		}
+		if _, isPtr := u.Type().Underlying().(*types.Pointer); !isPtr {
+			return
+		}
+		// a store to the same field of the same local on every path to the load
+		assigned := false
+		for _, r := range *a.Referrers() {
+			fb, isFA := r.(*ssa.FieldAddr)
+			if !isFA || fb.Field != fa.Field {
+				continue
+			}
+			for _, rr := range *fb.Referrers() {
+				if st, isSt := rr.(*ssa.Store); isSt && st.Addr == ssa.Value(fb) && instrDominates(st, u) && !core.IsNilConst(st.Val) {
+					assigned = true
+				}
+			}
+		}
+		// ... or the whole struct was stored (a composite literal assigned in one piece)
+		for _, r := range *a.Referrers() {
+			if st, isSt := r.(*ssa.Store); isSt && st.Addr == ssa.Value(a) && instrDominates(st, u) {
+				if k, isK := st.Val.(*ssa.Const); isK && k.Value == nil {
+					continue // the zero value
+				}
+				assigned = true
+			}
+		}
+		if !assigned && early == nil {
+			early, what = i, core.FieldName(fa)
+		}
+	})
+	if early != nil {
+		c.Bad(key, posOf(early), "nil pointer use: %s is read before it is assigned — the constructor panics on every call", core.Rel(what))
+		return
+	}
+	v, ok := accessoryCategorySSA(p, name)
+	c.Check(ok && v >= 0, key, f.Pos(), "made by accessory.New with a category constant; no pointer field read before it is assigned", "the accessory is not built by accessory.New with a category constant")
 }
 
 // baseConstructorsUsable: the constructors that take a type argument — NewCharacteristic and the typed NewInt / NewFloat / NewBool /
